@@ -28,11 +28,13 @@ impl<C: Config, Q: Query> Snapshot<C, Q> {
 
         let (Some(node_info), Some(last_verified)) = (node_info, last_verified)
         else {
+            crate::verif_point!("fp.miss", Some(self.query_id()), 0);
             return FastPathResult::ToSlowPath(SlowPath::Compute);
         };
 
         // check if the query is up-to-date
         if last_verified.0 != caller.timestamp() {
+            crate::verif_point!("fp.miss", Some(self.query_id()), 0);
             return FastPathResult::ToSlowPath(SlowPath::Repair);
         }
 
@@ -69,6 +71,7 @@ impl<C: Config, Q: Query> Snapshot<C, Q> {
             self.observe_callee_fingerprint(query_caller, &node_info, kind);
         }
 
+        crate::verif_point!("fp.hit", Some(self.query_id()), 0);
         FastPathResult::Hit(query_result)
     }
 
